@@ -62,6 +62,28 @@ package tsi
 //@     set rRe = (val == isRegexp)
 //@   ensures rAll && rEmpty && rNeg && rRe
 
+// The marshalled filter is the key of the tag-filter result cache: two filters that differ in the operator
+// (=, !=, =~, !~) must never share a key, so the last two bytes are exactly the negative and the regexp flag.
+//@ func marshalTagValue
+//@   trusted_assigns elements
+//@ func (*tagFilter).Marshal
+//@   requires tf != nil
+//@   ensures [flags] len(result) >= 2 && result[len(result)-2] == (old(tf.isNegative) ? 1 : 0) && result[len(result)-1] == (old(tf.isRegexp) ? 1 : 0)
+
+// Listing tag values: the remaining index rows of a tag value may be skipped (seek to the next value) only
+// after that value has been accepted for the result - a row without an eligible series id says nothing about
+// the later rows of the same value.
+//@ func (*indexSearch).searchTagValuesBySingleKey
+//@   ghost ex bool = false
+//@   call .NextItem
+//@     set ex = false
+//@   call .IsExpectedTag
+//@     set ex = ret0
+//@   call (*indexSearch).isExpectTagWithTagArray
+//@     set ex = ex && ret0
+//@   call .Seek with kb.B
+//@     requires [skip_only_accepted_value] ex
+
 //@ func (*MergeSetIndex).GetDeletedTSIDs
 //@   trusted atomic load of the current deleted set
 //@   assigns nothing
